@@ -47,7 +47,7 @@ CHECKS = {
             "each group equal to the ungrouped aggregate restricted to key = value, sortedness under ORDER BY for every seed, and the ORDER BY order independent of the hash seed; key values that collide when joined with a separator.",
             TRUST, "DESIGN.md section 5 C08"),
     "C13": ("exploration",
-            "Simulated wall clock (instants around local midnight, DST days, leap day, year end; frozen and ticking) x time zone x file times on the interval-edge grid; oracle = closed-interval model in the same zone (zoneinfo); "
+            "Simulated wall clock (instants around local midnight, DST days, leap day, year end; frozen, ticking, and midnight striking at the k-th clock read for every k) x seven time zones x file times on the interval-edge grid incl. DST-switch instants, pre-1970 and sub-second times; oracle = closed-interval model in the same zone (zoneinfo); "
             "trichotomy, complement, relative literals as whole local days, modified column formatting.",
             "A clock jumping across midnight mid-run and zones whose DST switch deletes local midnight are informational only. " + TRUST, "DESIGN.md section 5 C13"),
     "C17": ("fault_enumeration",
